@@ -365,6 +365,72 @@ def writer_entry_points(o, tmp, ref_text):
     return mism
 
 
+NMLNS = "http://www.neuroml.org/schema/neuroml2"
+
+
+def prefixed_texts(text):
+    """the written XML of a document, rewritten with namespace prefixes (same infoset): the whole document under one
+    prefix; a locally declared prefix on every other empty inner element, two different prefixes in turn"""
+    outs = []
+    if "<annotation" in text:          # raw wildcard content keeps prefixes as text
+        return outs
+    root = etree.fromstring(text.encode("utf-8"))
+    new = etree.Element(root.tag, nsmap=dict([("pfx", NMLNS)] + [(k, v) for k, v in root.nsmap.items() if k]))
+    new.text = root.text
+    for k, v in root.attrib.items():
+        new.set(k, v)
+    for ch in list(root):
+        new.append(ch)
+    etree.cleanup_namespaces(new)
+    pt = etree.tostring(new, encoding="unicode")
+    if "<pfx:" in pt:
+        outs.append(("whole document under the prefix pfx", pt))
+    cnt = [0]
+
+    def loc(m):
+        cnt[0] += 1
+        if cnt[0] > 2 and cnt[0] % 3 == 0:
+            return m.group(0)
+        return '<q%d:%s xmlns:q%d="%s"%s/>' % (cnt[0] % 2, m.group(1), cnt[0] % 2, NMLNS, m.group(2))
+    lt = re.sub(r"<([A-Za-z_][\w.-]*)((?:\s[^<>]*?)?)/>", loc, text)
+    if cnt[0]:
+        outs.append(("prefixes q0/q1 declared locally on inner empty elements (the root unprefixed)", lt))
+    return outs
+
+
+def prefixed_loaded(text, order, tmp, ref_dump):
+    """build mode loaded-from-prefixed-text: trees obtained by LOADING prefixed text are conforming trees too: validate
+    accepts them and the writer's output for them is well-formed and schema-valid"""
+    from neuroml.loaders import NeuroMLLoader, read_neuroml2_string
+    from neuroml.writers import NeuroMLWriter
+    out = []
+    for i, (label, pt) in enumerate(prefixed_texts(text)):
+        v = {"variant": label}
+        try:
+            v["input_lx"], _ = lx_validate_text(pt)
+            if i % 2 == 0:
+                doc = read_neuroml2_string(pt)
+                v["loader"] = "read_neuroml2_string"
+            else:
+                fn = os.path.join(tmp, "prefixed_in.nml")
+                open(fn, "w").write(pt)
+                doc = NeuroMLLoader.load(fn)
+                v["loader"] = "NeuroMLLoader.load"
+            v["same_tree"] = dump(doc, order) == ref_dump
+            v["rec"] = run_validate(doc, True)
+            fo = os.path.join(tmp, "prefixed_out.nml")
+            NeuroMLWriter.write(doc, fo)
+            wt = open(fo).read()
+            v["lx"], _ = lx_validate_text(wt)
+            if not v["lx"]["valid"]:
+                v["written"] = wt[:1500]
+                v["prefixed_text"] = pt[:1500]
+        except BaseException as e:  # noqa
+            v["err"] = type(e).__name__ + ": " + str(e)[:200]
+        out.append(v)
+    return out
+
+
 def run_case(case, order, tmp, want):
     r = {}
     BUILD[0] = case.get("build", "ctor")
@@ -423,6 +489,8 @@ def run_case_checks(case, order, tmp, want, r, o):
             ptxt = open(fn).read()
             r["path_lx"], _ = lx_validate_text(ptxt)
             r["entry_mismatch"] = writer_entry_points(o, tmp, ptxt)
+            if "prefixed" in want and r["path_lx"]["valid"]:
+                r["prefixed"] = prefixed_loaded(ptxt, order, tmp, r["obj"])
             from neuroml.utils import is_valid_neuroml2
             try:
                 r["file_valid"] = bool(is_valid_neuroml2(fn))
